@@ -663,6 +663,7 @@ class World(object):
         self.calls = []         # every socket-level call incl. close/shutdown
         self.faults = {}        # op index -> 'oserror' | 'valueerror' | 'eof'
         self.resolve_fault = None
+        self.fault_hook = None     # callable(op index, op name) -> fault kind | None  (engine A draws it as a choice)
         self.connect_faults = {}   # k-th connect -> exception
         self.socket_faults = {}    # k-th socket() -> exception
         self.n_connects = 0
@@ -732,6 +733,10 @@ class World(object):
         self.ops.append((i, self.clock.t, conn.idx if conn is not None else None, name, detail))
         self.log(conn, name, detail)
         f = self.faults.get(i)
+        if f is None and self.fault_hook is not None:
+            f = self.fault_hook(i, name)
+            if f is not None:
+                self.faults[i] = f
         if f is None:
             return None
         if f == 'eof':
@@ -741,9 +746,9 @@ class World(object):
         if f == 'oserror':
             if name == 'getaddrinfo':
                 raise _real_socket.gaierror(-2, 'Name or service not known (injected)')
-            raise OSError(errno.ECONNRESET, 'Connection reset by peer (injected at op %d %s)' % (i, name))
+            raise OSError(errno.ECONNRESET, 'Connection reset by peer {injected at op %d %s} {}' % (i, name))
         if f == 'valueerror':
-            raise ValueError('arbitrary exception (injected at op %d %s)' % (i, name))
+            raise ValueError('arbitrary exception {injected at op %d %s} {0} {}' % (i, name))
         if f == 'timeout':
             raise _real_socket.timeout('timed out (injected)')
         raise HarnessError('unknown fault %r' % (f,))
